@@ -161,19 +161,21 @@ WriteLogOK(o, data, calls, ff) ==
         /\ (m > 0 /\ calls[m][2] = "err") => o.err = calls[m][3]
         /\ o.err # 0 => (m > 0 /\ calls[m][2] \in {"err", "zero"}) \/ ff = 1
 
-\* The print macros (unix/print.rs): print!/println! format into __UnixWriter, whose write_str
-\* loops over write(2) on fd 1.  A recorded run r: len = bytes of the formatted text, rlen = how
+\* The print macros (unix/print.rs): print!/println!/eprint!/eprintln!/dbg! format into
+\* __UnixWriter, whose write_str loops over write(2) on fd 1 / fd 2.  A recorded run r: len = bytes of the formatted text, rlen = how
 \* many the descriptor received, mismatch = first position where they differ from the text (-1:
-\* none), nl = a newline followed (println!), ok = 1/0 result of the direct fmt::Write::write_fmt
+\* none), ln = the macro ends its output with a newline (println!, eprintln!, dbg!), nl = a
+\* newline did follow, ok = 1/0 result of the direct fmt::Write::write_fmt
 \* call, 2 = macro (result discarded), signals = signals sent while writing (a write(2) can only
 \* fail or come back short if one arrived).  Every byte at most once and in order; all of them
 \* unless an error was (or, for the macros, may have been) returned.
 PrintOK(r) ==
+    /\ r.stray = 0           \* nothing on the other standard descriptor
     /\ r.mismatch = -1 /\ r.rlen <= r.len
     /\ r.ok = 1 => r.rlen = r.len
     /\ r.signals = 0 => /\ r.rlen = r.len /\ r.ok # 0
-                        /\ r.kind \in {"println", "println0"} => r.nl
-    /\ r.kind \notin {"println", "println0"} => ~r.nl
+                        /\ r.ln => r.nl
+    /\ ~r.ln => ~r.nl
 
 \* The helpers on a tiny_std File over a kernel pipe whose peer moves the bytes in arbitrary
 \* pieces while signals interrupt the caller (real short transfers, real EINTR; no other error is
